@@ -72,14 +72,8 @@ def parseEv (s : String) : Option Ev :=
       | _ => none
     | _ => none
 
-structure MChunk where
-  id : Nat
-  len : Nat
-  start : Nat
-  n : Nat
-
 structure MSt where
-  cs : List MChunk := []      -- newest first (the monitor's own `glue`)
+  cs : List Chunk := []       -- `Writer.glue` of the pieces so far (newest first)
   ended : List Nat := []
   returned : List Nat := []
   xseen : Bool := false
@@ -90,48 +84,55 @@ def MSt.reject (m : MSt) (why : String) : MSt :=
   | none => { m with verdict := some ("reject:" ++ why) }
   | some _ => m
 
-def mstep (m : MSt) : Ev → MSt
+def lookupLen (tab : List (Nat × Nat)) (w : Nat) : Nat :=
+  match tab.find? (·.1 == w) with
+  | some (_, l) => l
+  | none => 0
+
+/-- the byte-stream part of the monitor is `Writer.scanFrom` (one `addPiece`, then `framed`), whose soundness
+    w.r.t. the machine is `C07_monitor_accepts_reachable` / `C07_monitor_reject_means_unframed_prefix`; the
+    other clauses are `C07_nothing_after_close` (write-after-close), `C07_no_bytes_after_return`,
+    `C07_success_means_whole`, `C07_cancel_before_start_no_bytes`, `C07_quiescent_open_means_whole` (torn-but-open). -/
+def mstep (lens : Nat → Nat) (m : MSt) : Ev → MSt
   | .piece id len off n =>
     if m.xseen then m.reject "write-after-close"
     else if m.returned.contains id then m.reject "bytes-after-return"
     else if id == 0 then m.reject "unframed-write"
-    else if n == 0 then m.reject "bound"
+    else if len != lens id then m.reject "bound"
     else
-      match m.cs with
-      | c :: cs =>
-        if c.id == id && c.start + c.n == off then
-          if m.ended.contains id then m.reject "frame-written-twice"
-          else if c.n + n > len || len != c.len then m.reject "bound"
-          else { m with cs := { c with n := c.n + n } :: cs }
-        else if off != 0 || (m.cs.any fun c => c.id == id) then m.reject "interleaved"
-        else if n > len then m.reject "bound"
-        else { m with cs := ⟨id, len, 0, n⟩ :: m.cs }
-      | [] =>
-        if off != 0 then m.reject "interleaved"
-        else if n > len then m.reject "bound"
-        else { m with cs := [⟨id, len, 0, n⟩] }
+      match scanFrom lens m.cs [⟨id, off, n⟩] with
+      | some cs' => { m with cs := cs', ended := m.ended.filter (· != id) }  -- a Write of `id` is in progress
+      | none =>
+        let continues := match m.cs with
+          | c :: _ => c.id == id && c.start + c.n == off
+          | [] => false
+        if !continues && (off != 0 || (m.cs.any fun c => c.id == id)) then m.reject "interleaved" else m.reject "bound"
   | .endw id _ => { m with ended := id :: m.ended }
   | .ret id o =>
     let m := { m with returned := id :: m.returned }
     if o == "crash" then m.reject "crash"
-    else if o == "ok" && !(m.cs.any fun c => c.id == id && c.n == c.len) then m.reject "success-without-whole-frame"
+    else if o == "ok" && !(m.cs.any fun c => c.id == id && c.n == lens id) then m.reject "success-without-whole-frame"
     else if o == "cancel" && (m.cs.any fun c => c.id == id) then m.reject "cancelled-left-bytes"
     else m
   | .sockClosed => { m with xseen := true }
   | .idle =>
-    if m.cs.any fun c => decide (c.n < c.len) && m.ended.contains c.id then m.reject "torn-but-open" else m
+    if m.cs.any fun c => decide (c.n < lens c.id) && m.ended.contains c.id then m.reject "torn-but-open" else m
 
 /-- the independent decoder's view (complete frames / trailing bytes of the raw stream) must agree with the
     pieces whenever no torn frame is followed by anything (otherwise the decoder's view is garbage by
     definition: known finding KF-C07-1) -/
-def decoderAgrees (m : MSt) (bytes frames rest : Nat) : Bool :=
+def decoderAgrees (lens : Nat → Nat) (m : MSt) (bytes frames rest : Nat) : Bool :=
   let total := (m.cs.map (·.n)).foldl (· + ·) 0
-  let tailWhole := m.cs.tail.all fun c => c.n == c.len
   total == bytes &&
-  (!tailWhole ||
+  (!(onlyLastTorn lens m.cs) ||
     match m.cs with
     | [] => frames == 0 && rest == 0
-    | c :: cs => if c.n == c.len then frames == cs.length + 1 && rest == 0 else frames == cs.length && rest == c.n)
+    | c :: cs => if c.n == lens c.id then frames == cs.length + 1 && rest == 0 else frames == cs.length && rest == c.n)
+
+def lensOfEvs (evs : List Ev) : List (Nat × Nat) :=
+  evs.filterMap fun
+    | .piece id len _ _ => some (id, len)
+    | _ => none
 
 def kv (key s : String) : Option Nat :=
   match s.splitOn "=" with
@@ -139,21 +140,17 @@ def kv (key s : String) : Option Nat :=
   | _ => none
 
 def monitor2 (bytes frames rest : Nat) (evs : List Ev) : String :=
-  let m := evs.foldl mstep {}
+  let lens := lookupLen (lensOfEvs evs)
+  let m := evs.foldl (mstep lens) {}
   match m.verdict with
   | some v => v
-  | none => if decoderAgrees m bytes frames rest then "accept" else "reject:decoder-disagrees"
+  | none => if decoderAgrees lens m bytes frames rest then "accept" else "reject:decoder-disagrees"
 
 /-! ### `sched`: replay of the observed schedule on the machine of `Model/Writer.lean` -/
 
 structure SSt where
   s : St := Writer.init
   stuck : Option String := none
-
-def lookupLen (tab : List (Nat × Nat)) (w : Nat) : Nat :=
-  match tab.find? (·.1 == w) with
-  | some (_, l) => l
-  | none => 0
 
 def acts (cfg : Cfg) (ss : SSt) (tok : String) (as : List Act) : SSt :=
   match ss.stuck with
